@@ -1,5 +1,71 @@
 import Driver.Proto
-/-! C06 handler (not implemented yet). -/
+import ThunderModel.Fed.Gateway
+/-! C06 handler: the gateway model on one normalized query: plan, literal execution, the
+object-by-object form, and the combined server. -/
+open Lean TM.Fed.Gateway
+
 namespace Driver.C06
-def handle : Handler := fun _ => throw "C06: no model yet"
+
+partial def decQ (j : Json) : Except String Q := do
+  pure (.sel (← nat j "a") (← nat j "n") (← listOf decQ (← field j "k")))
+
+partial def encQ : Q → Json
+  | .sel a n k => Json.mkObj [("a", (a : Json)), ("n", (n : Json)), ("k", Json.arr (k.map encQ).toArray)]
+
+partial def encPlan : Plan → Json
+  | .mk p s t sel after => Json.mkObj [("path", jNats p), ("svc", (s : Json)), ("typ", (t : Json)),
+      ("sel", Json.arr (sel.map encQ).toArray), ("after", Json.arr (after.map encPlan).toArray)]
+
+partial def encR : R → Json
+  | .null => Json.null
+  | .sc v => Json.mkObj [("s", (v : Json))]
+  | .arr xs => Json.arr (xs.map encR).toArray
+  | .obj fs => Json.mkObj [("o", Json.arr (fs.map fun (k, v) => Json.arr #[(k : Json), encR v]).toArray)]
+
+def decRef (j : Json) : Except String Ref := do pure ⟨← nat j "t", ← int j "k"⟩
+
+def decFV (j : Json) : Except String FV := do
+  match ← str j "k" with
+  | "null" => pure .null
+  | "sc" => pure (.sc (← int j "v"))
+  | "ref" => pure (.ref (← decRef (← field j "r")))
+  | "refs" => do
+    let rs ← listOf (fun x => match x with | .null => pure none | y => do pure (some (← decRef y))) (← field j "rs")
+    pure (.refs rs)
+  | k => throw s!"C06: unknown value kind {k}"
+
+/-- assoc-list lookup with three keys -/
+def find3 {α} (l : List (Nat × Nat × Nat × α)) (a b c : Nat) : Option α :=
+  (l.find? fun (x, y, z, _) => x == a && y == b && z == c).map fun (_, _, _, v) => v
+
+def find2 {α} (l : List (Nat × Nat × α)) (a b : Nat) : Option α :=
+  (l.find? fun (x, y, _) => x == a && y == b).map fun (_, _, v) => v
+
+def handle : Handler := fun req => do
+  let op ← str req "op"
+  match op with
+  | "gateway" =>
+    let owners ← listOf (fun j => do pure (← nat j "t", ← nat j "n", ← nats (← field j "s"))) (← field req "owners")
+    let picks ← listOf (fun j => do pure (← nat j "t", ← nat j "n", ← nat j "a", ← nat j "s")) (← field req "picks")
+    let child ← listOf (fun j => do pure (← nat j "t", ← nat j "n", ← nat j "c")) (← field req "child")
+    let store ← listOf (fun j => do pure (← nat j "t", ← int j "k", ← nat j "n", ← decFV (← field j "v"))) (← field req "store")
+    let σ : Sch := {
+      owners := fun t n => (find2 owners t n).getD []
+      custom := fun _ _ => none
+      pick := fun t q => (find3 picks t q.name q.alias).getD 0
+      child := fun t n => find2 child t n }
+    let st : Store := fun r n =>
+      ((store.find? fun (t, k, m, _) => t == r.t && k == r.k && m == n).map fun (_, _, _, v) => v).getD .null
+    let root ← decRef (← field req "root")
+    let svc ← nat req "svc"
+    let qs ← listOf decQ (← field req "query")
+    let body := planBody σ svc root.t qs
+    let lit := gateway σ st svc root qs
+    let fused := dropFed (.obj (fusedBody σ st svc qs root))
+    pure <| Json.mkObj [
+      ("sel", Json.arr (body.1.map encQ).toArray),
+      ("after", Json.arr (body.2.map encPlan).toArray),
+      ("gateway", encR lit), ("fused", encR fused), ("mono", encR (.obj (evalSels st qs root)))]
+  | _ => throw s!"C06: unknown op {op}"
+
 end Driver.C06
